@@ -16,7 +16,7 @@
 From Coq Require Import Lia Permutation Sorted.
 From WP Require Import Base.Prelude Model.Cbor Spec.Cbor Spec.CborProgram.
 From WP Require Import Proofs.BaseLemmas Proofs.CborHead Proofs.CborUtf8
-  Proofs.CborTokens Proofs.CborMap Proofs.CborProgram.
+  Proofs.CborTokens Proofs.CborMap Proofs.CborProgram Proofs.CborHeadInj.
 Open Scope N_scope.
 
 (* ---- the order used for map keys is a strict total order ---------------- *)
@@ -45,6 +45,15 @@ Theorem major_const_cases : forall t,
   major_const t <-> In t [TPos; TNeg; MBytes; MText; TArray; MMap; TTag; TOther].
 Proof. exact CborHead.major_const_cases. Qed.
 Print Assumptions major_const_cases.
+
+(* heads are uniquely readable (prefix-free): concatenated encoder output
+   cannot be split in two ways, whatever follows each head *)
+Theorem head_prefix_free : forall t t' n n' r r',
+  major_const t -> major_const t' -> n < two64 -> n' < two64 ->
+  typed_uint t n ++ r = typed_uint t' n' ++ r' ->
+  t = t' /\ n = n' /\ r = r'.
+Proof. exact CborHeadInj.typed_uint_prefix_free. Qed.
+Print Assumptions head_prefix_free.
 
 (* encodeTypedUint IS the spec's shortest-form head encoder *)
 Theorem typed_uint_is_shortest_head : forall t n,
